@@ -162,6 +162,13 @@ def stability_rows(r):
         if b.get('object_ids', {}).get(k) != v:
             out.append(('stability', 'registry-object-replaced', k, '', 0, 0, 'after use, %s is a different object than at import' % k,
                         {'table': 'stability', 'kind': 'registry-object-replaced', 'subject': k, 'name': ''}))
+    for stage, snap in (('right after import', a), ('after the library has been used in the same interpreter', b)):
+        for key, name, value, why in snap.get('access_failures', []):
+            out.append(('stability', 'enum-member-not-reachable-on-every-access-path', key, name, value, 0,
+                        '[%s] Python enum %s: member %s = %d is defined but %s (checked: attribute, E[name], E(name), E(value), iteration, len, name, str)'
+                        % (stage, key, name, value, why),
+                        {'table': 'stability', 'kind': 'enum-member-not-reachable-on-every-access-path', 'subject': key, 'name': name, 'value': value,
+                         'stage': stage, 'why': why}))
     for h in r['py'].get('static_hits', []):
         out.append(('stability', 'registry-mutated-in-place-by-library-code', h.split(':')[0], h.split(': ', 1)[-1], 0, 0,
                     'library code changes a registry object (or a name bound to it) in place: %s' % h,
